@@ -1524,7 +1524,47 @@ def derived_probe(ctx, b_raw, b_der, b_cov):
 
 
 # ----------------------------------------------------------------------------- entry points
+def large_container_probe(ctx):
+    """Very large count containers (element counts on both sides of 2^24 .. 2^27; thorough: 2^28): what count_pairs / from_hdf
+    allocate with zeros() must hold pair counts in double precision whatever its size - the leave-one-out samples are differences
+    of sums of these cells.  A few cells are written and read back bit for bit; the jackknife of the sparse container is compared
+    with the delete-one recount of exactly those cells."""
+    from yaw.binning import Binning
+    from yaw.correlation.paircounts import PatchedCounts
+    rng = ctx.rng
+    sizes = [(1, 4100), (1, 5800), (1, 8200), (2, 8200)] + ([] if ctx.quick() else [(1, 11600), (1, 16400), (64, 1030)])
+    for nb, npatch in sizes:
+        binning = Binning([0.1 * k for k in range(nb + 1)], closed="right")
+        pc = PatchedCounts.zeros(binning, npatch, auto=False)
+        cells = {}
+        for value in (2.0 ** 24 + 1.0, 2.0 ** 31 + 3.0, 2.0 ** 53 - 1.0, 0.1, 1.0 / 3.0):
+            i, j = rng.randrange(npatch), rng.randrange(npatch)
+            pc.set_patch_pair(i, j, np.full(nb, value))
+            cells[(i, j)] = value
+        bad = [(ij, v, float(pc.counts[0, ij[0], ij[1]])) for ij, v in cells.items() if float(pc.counts[0, ij[0], ij[1]]).hex() != float(v).hex()]
+        ctx.count(key=("large-container", nb, npatch), nontrivial=True, kind="large-container/2^%d-elements" % int(np.log2(nb * npatch * npatch)))
+        if bad or pc.counts.dtype != np.float64:
+            ctx.fail("c03-large-container-loses-precision", "PatchedCounts.zeros(%d bins, %d patches) holds its cells as %s: written %r, read back %r"
+                     % (nb, npatch, pc.counts.dtype, bad[0][1] if bad else None, bad[0][2] if bad else None),
+                     dict(bins=nb, patches=npatch, dtype=str(pc.counts.dtype), cells=[[list(ij), v, g] for ij, v, g in bad]), case=("large", nb, npatch))
+            continue
+        # delete-one totals of the sparse container: total minus row k minus column k plus the diagonal cell
+        total = sum(cells.values())
+        ks = sorted({i for i, _ in cells} | {j for _, j in cells})[:3] + [rng.randrange(npatch)]
+        got = np.asarray(pc.sample_patch_sum().samples)[:, 0]
+        if True:
+            for k in ks:
+                want = sum(v for (i, j), v in cells.items() if i != k and j != k)
+                if abs(got[k] - want) > 2e-16 * 8 * abs(total):
+                    ctx.fail("c03-large-container-sample-not-recount", "jackknife sample %d of a %d-patch container with five non-zero cells is %r, "
+                             "the recount without patch %d gives %r" % (k, npatch, float(got[k]), k, want),
+                             dict(bins=nb, patches=npatch, k=k, cells=[[list(ij), v] for ij, v in cells.items()]), case=("large-sample", nb, npatch, k))
+                    break
+        del pc
+
+
 def run(ctx):
+    large_container_probe(ctx)
     rng = ctx.rng
     traces(ctx)
     ctx.log("traces done")
